@@ -14,7 +14,7 @@ structure DState where
 
 def envOf (d : Dump) (input : List Nat) (m : Nat → Nat → Option Nat) : Env :=
   { g := d.grammar, t := d.table, input := input, recog := m,
-    skipWs := d.settings.skipWs, longest := d.settings.longestMatch,
+    skipWs := d.settings.skipWs && d.table.layoutState.isNone, longest := d.settings.longestMatch,
     grammarOrder := d.settings.grammarOrder }
 
 def handle (st : DState) (line : String) : DState × String :=
@@ -35,6 +35,15 @@ def handle (st : DState) (line : String) : DState × String :=
     match rest.splitOn " #" with
     | [req, mat] =>
       match fields req with
+      | [pp, inp, lexer] =>
+        let input := unhexBytes inp
+        let custom : Option (Nat × Nat) := match lexer.splitOn "," with
+          | [m, sd] => some (natOf m, natOf sd)
+          | _ => none
+        let env := { envOf st.dump input (parseMatrix mat) with custom := custom }
+        let fuel := 2000 + 200 * input.length
+        let (_, o) := parse env (pp == "1") fuel
+        (st, renderOutcome o)
       | [pp, inp] =>
         let input := unhexBytes inp
         let env := envOf st.dump input (parseMatrix mat)
